@@ -96,11 +96,18 @@ func (t *Tokenizer) TokenizeWithLimits(limits TokenizerLimits, input *ast.Input)
 			key := identkeyword.KeywordFromLiteral(input.ByteSlice(next.Literal))
 			switch key {
 			case identkeyword.FRAGMENT, identkeyword.QUERY, identkeyword.MUTATION, identkeyword.SUBSCRIPTION:
-				// When starting a new operation or fragment, add the local depth peak
-				// to global depth and reset local tracking
-				globalDepth += localDepthPeak
-				localDepth = 0
-				localDepthPeak = 0
+				if localDepth <= 0 {
+					// Outside of any selection set these keywords start a new operation or fragment:
+					// add the local depth peak to global depth and reset local tracking
+					globalDepth += localDepthPeak
+					localDepth = 0
+					localDepthPeak = 0
+					break
+				}
+				// Inside a selection set they are ordinary names (field, alias, argument or variable
+				// name) and must be counted like any other identifier. Resetting here would stop
+				// the field accounting for the rest of the operation.
+				fallthrough
 			default:
 				// localDepth > 0 means that we are inside a selection set, otherwise we're not counting fields
 				// if lastWasSpread, it means that the next token is an identifier of a fragment spread, we dismiss it
